@@ -1,8 +1,9 @@
 import asyncio
 import copy
+import functools
 import logging
 import uuid
-from typing import Optional, Union
+from typing import Any, Callable, Optional, Union
 
 from pyee.asyncio import AsyncIOEventEmitter
 
@@ -47,6 +48,21 @@ DISCARD_PORT = 9
 MEDIA_KINDS = ["audio", "video"]
 
 logger = logging.getLogger(__name__)
+
+
+def chained(method: Callable[..., Any]) -> Callable[..., Any]:
+    """
+    Run a negotiation method as part of the connection's operations chain:
+    a call made while another one is still in progress starts once that one
+    has finished, and is checked against the state it leaves behind.
+    """
+
+    @functools.wraps(method)
+    async def wrapper(self: Any, *args: Any, **kwargs: Any) -> Any:
+        async with self._operations:
+            return await method(self, *args, **kwargs)
+
+    return wrapper
 
 
 def filter_preferred_codecs(
@@ -315,6 +331,7 @@ class RTCPeerConnection(AsyncIOEventEmitter):
         self.__transceivers: list[RTCRtpTransceiver] = []
 
         self.__closeTask: Optional[asyncio.Task] = None
+        self._operations = asyncio.Lock()
         self.__connectionState = "new"
         self.__iceConnectionState = "new"
         self.__iceGatheringState = "new"
@@ -779,6 +796,7 @@ class RTCPeerConnection(AsyncIOEventEmitter):
         """
         return list(self.__transceivers)
 
+    @chained
     async def setLocalDescription(
         self, sessionDescription: Optional[RTCSessionDescription] = None
     ) -> None:
@@ -878,6 +896,7 @@ class RTCPeerConnection(AsyncIOEventEmitter):
         else:
             self.__pendingLocalDescription = description
 
+    @chained
     async def setRemoteDescription(
         self, sessionDescription: RTCSessionDescription
     ) -> None:
